@@ -214,6 +214,14 @@ func VerifC12_Authenticate() {
 	if readMethod {
 		required = h.read
 	}
+	rt.ObserveBool("granted", token != nil)
+	if token != nil {
+		rt.Observe("token-read", uint64(uint8(token.Read)))
+		rt.Observe("token-write", uint64(uint8(token.Write)))
+	}
+	for _, c := range w.codes {
+		rt.Observe("reply", uint64(c))
+	}
 	if token != nil {
 		rt.Assert(len(w.codes) == 0, "auth/granted-without-error-reply")
 		rt.Assert(required != NotFound, "auth/notfound-never-granted")
@@ -287,6 +295,9 @@ func VerifC12_EffectiveMethod() {
 		r.Header["Access-Control-Request-Method"] = []string{pre}
 	}
 	em, read, ok := getEffectiveMethod(r)
+	rt.ObserveStr("effective", em)
+	rt.ObserveBool("read", read)
+	rt.ObserveBool("ok", ok)
 	eff := method
 	if rt.EqStr(method, "OPTIONS") {
 		eff = pre
